@@ -57,9 +57,11 @@ def gen(r, d, leaves, kinds=None):
         return p.Quotient(g(), g())
     if k == "pow":
         return p.Power(g(), g())
-    if k == "call":
-        return p.Call(p.Variable("f"), (g(), g()))
+    if k == "call":     # zero, one or two arguments (f() has the EMPTY parameter tuple)
+        return p.Call(p.Variable("f"), tuple(g() for _ in range(r.choice([0, 1, 2, 2]))))
     if k == "sub":
+        if r.random() < 0.15:
+            return p.Subscript(p.Variable("a"), r.choice([(), (g(),)]))
         return p.Subscript(p.Variable("a"), g())
     if k == "cmp":
         return p.Comparison(g(), r.choice(["<", "=="]), g())
@@ -103,10 +105,19 @@ def near_miss(rng, e):
     elif isinstance(site, p.Power):
         new = p.Power(site.exponent, site.base)
     elif isinstance(site, p.Call):
-        new = p.Call(p.Variable("g"), site.parameters) if rng.random() < 0.5 \
-            else p.Call(site.function, tuple(reversed(site.parameters)))
+        u = rng.random()
+        if u < 0.35:
+            new = p.Call(p.Variable("g"), site.parameters)
+        elif u < 0.65:      # another NUMBER of arguments (also: none <-> some)
+            new = p.Call(site.function, site.parameters[1:] if site.parameters and rng.random() < 0.5
+                         else (*site.parameters, rng.choice(TV)))
+        else:
+            new = p.Call(site.function, tuple(reversed(site.parameters)))
     elif isinstance(site, p.Subscript):
-        new = p.Subscript(p.Variable("b"), site.index)
+        if isinstance(site.index, tuple) and rng.random() < 0.5:
+            new = p.Subscript(site.aggregate, (*site.index, rng.choice(TV)))
+        else:
+            new = p.Subscript(p.Variable("b"), site.index)
     else:
         new = p.If(site.condition, site.else_, site.then)
     from .c08 import refsub as _rs  # noqa: F401
@@ -549,6 +560,36 @@ def _work_cb(qualname, frame):
             raise refsem.TooCostly()
 
 
+def replace_one_occurrence(rng, e):
+    """the pattern with ONE occurrence of a pattern variable replaced; every sub-tree off that
+    path stays the IDENTICAL object (a target built from the pattern's own pieces)"""
+    paths = []
+
+    def scan(x, path):
+        if isinstance(x, p.Variable) and x.name in "pqr":
+            paths.append(path)
+        elif isinstance(x, p.Expression) and normal.is_expr_dataclass(type(x)):
+            for f in dataclasses.fields(x):
+                scan(getattr(x, f.name), path + (f.name,))
+        elif isinstance(x, tuple):
+            for i, c in enumerate(x):
+                scan(c, path + (i,))
+    scan(e, ())
+    if not paths:
+        return e
+    target_path = rng.choice(paths)
+    new = rng.choice([rng.choice(TV), p.Variable(rng.choice("pqr")), p.Sum((rng.choice(TV), 1))])
+
+    def rebuild(x, path):
+        if not path:
+            return new
+        if isinstance(x, tuple):
+            return tuple(rebuild(c, path[1:]) if i == path[0] else c for i, c in enumerate(x))
+        return type(x)(*[rebuild(getattr(x, f.name), path[1:]) if f.name == path[0]
+                         else getattr(x, f.name) for f in dataclasses.fields(x)])
+    return rebuild(e, target_path)
+
+
 def per_occurrence(rng, e):
     if isinstance(e, p.Variable) and e.name in "pqr":
         return rng.choice([e, e, p.Variable(rng.choice("pqr")), rng.choice(TV)])
@@ -567,7 +608,7 @@ def workload(ctx):
             pat = gen(rng, rng.randint(1, 3), PV + TV[:1])
             if not isinstance(pat, p.Expression):
                 continue
-            mode = rng.choice(["inst", "rename", "rename", "indep", "nearmiss", "inconsistent"])
+            mode = rng.choice(["inst", "rename", "rename", "indep", "nearmiss", "inconsistent", "shared"])
             cands = rng.choice(["pqr", ["p", "q", "r"], {"p", "q", "r"}])
             # one case in three: the target's own variables may be NAMED like pattern variables
             # (a candidate p facing a target variable p is a binding p = p like any other)
@@ -582,6 +623,9 @@ def workload(ctx):
                 names = rng.sample(["u1", "u2", "u3", "x", "y"] + (["p", "q", "r"] if clash else []), 3)
                 sub = [(v.name, p.Variable(nm)) for v, nm in zip(PV, names)]
                 tgt = shuffle(rng, refsub(pat, sub))
+            elif mode == "shared":
+                # NOT shuffled: operands of the target ARE operands of the pattern (same objects)
+                tgt = replace_one_occurrence(rng, pat)
             elif mode == "inconsistent":
                 # every OCCURRENCE of a pattern variable replaced on its own: by the variable of
                 # the same name, by another pattern variable's name, or by a target variable --
